@@ -35,9 +35,9 @@ type vpFakeStore struct {
 	added   []*coin.SignedBlock
 }
 
-func (s *vpFakeStore) Len(tx *dbutil.Tx) (uint64, error)               { return s.length, nil }
-func (s *vpFakeStore) Head(tx *dbutil.Tx) (*coin.SignedBlock, error)   { return s.head, nil }
-func (s *vpFakeStore) UnspentPool() blockdb.UnspentPooler              { return s.pool }
+func (s *vpFakeStore) Len(tx *dbutil.Tx) (uint64, error)             { return s.length, nil }
+func (s *vpFakeStore) Head(tx *dbutil.Tx) (*coin.SignedBlock, error) { return s.head, nil }
+func (s *vpFakeStore) UnspentPool() blockdb.UnspentPooler            { return s.pool }
 func (s *vpFakeStore) GetGenesisBlock(tx *dbutil.Tx) (*coin.SignedBlock, error) {
 	return s.genesis, nil
 }
